@@ -1,1 +1,3 @@
 import PynProofs.Restrict
+import PynProofs.FixIset
+import PynProofs.SetOps
